@@ -332,6 +332,10 @@ def load_kern(
     )
     # Extract splines for the identified parts
     splines = file[1:].T[note_parts]
+    # keep the part index of the parsable columns only (j below counts those)
+    parsing_idxs = np.asarray(parsing_idxs)[: note_parts.size][
+        np.atleast_1d(note_parts)
+    ]
 
     has_instrument = np.char.startswith(splines, "*I")
     # Determine if all parts have the same instrument
